@@ -136,6 +136,13 @@ def targets(meth):
         ("generator-var-shadows-call-site-seen-earlier", "any(x == 9 for x in [1, 2] if %s('p') for %s in [r.c.m])" % (meth, meth)),
         ("generator-var-shadows-call-site-seen-earlier", "any(x == 9 for x in [1, 2, 3] for y in [%s('p')] for %s in [r.c.m])" % (meth, meth)),
         ("generator-var-shadows-call-site-seen-earlier", "all(x == 9 or %s('p') for x in [1, 2] for %s in [r.c.m, r.sl.append])" % (meth, meth)),
+        # loop targets that unpack: every name bound by the target is a loop variable
+        ("generator-var-from-unpacking-target", "any(f() for f, x in [(r.c.%s, 1)])" % meth),
+        ("generator-var-from-unpacking-target", "any(x for f, x in [(r.c.%s, 1)] if f())" % meth),
+        ("generator-var-from-unpacking-target", "any(f() for (x, f) in [(1, r.sl.%s)])" % meth),
+        ("generator-var-from-unpacking-target", "any(f() for [f, x] in [[r.c.%s, 1]])" % meth),
+        ("generator-var-from-unpacking-target", "any(f() for f, *x in [(r.c.%s, 1, 2)])" % meth),
+        ("generator-var-from-unpacking-target", "any(g() for x, (f, g) in [(1, (2, r.c.%s))])" % meth),
         ("generator-var-named-like-whitelisted", "any(%s() for %s in [r.c.m])" % (meth, meth)),
         ("generator-var-named-like-whitelisted", "any(%s(1) for %s in [r.c.m, r.s.upper])" % (meth, meth)),
         ("call-of-call", "r.c.%s()()" % meth),
@@ -209,6 +216,11 @@ def _builtin_name_calls():
 
 
 NAME_CALLS += _builtin_name_calls()
+# a loop variable called like the field-type namespace, called through a dotted whitelisted path
+NAME_CALLS += ["any(net.ipaddress('1.1.1.1') for net in [r.c])", "any(net.ipv4.Address('1.1.1.1') for net in [r.c, r.c])",
+               "any(net.tcp.Port(1) for net in [r.c])", "any(net.ipnetwork('10.0.0.0/8') == 1 for net in [r.c])",
+               "any(True for net in [r.c] if net.ipaddress('1.1.1.1'))", "any(string.lower() for string in [r.c])",
+               "any(net.ipv4.Subnet('10.0.0.0/8') for x in [1] for net in [r.c])"]
 
 DUNDERS = [
     "r.__class__", "r.c.__dict__", "r.s.__class__.__mro__", "Type.__class__", "lower.__globals__",
